@@ -230,64 +230,154 @@ void harness(void) { setup(); snoopy_datasource_datetime(buf, BUFSZ, IN.arg); TE
     }
     V_WITNESS(); }
 #elif defined(DS_rpname)
-/* rpname = kernel name of the ancestor (or the process itself) whose parent is pid 1 (or 0), read from /proc/<pid>/status */
-#include "vfs.h"
+/* rpname = kernel name of the ancestor (or the process itself) whose parent is pid 1 (or 0), read from /proc/<pid>/status.
+ * procfs is modelled here, line by line (the general stream model of vfs.c has to search symbolic text for newlines, which
+ * does not finish on this unit): getline() hands out the next line of the status file of pid 50 (the process) or pid 40 (its
+ * parent); names are symbolic bytes (spaces, tabs, colons allowed), fopen may fail at every call. */
+#include <stdio.h>
+#include <sys/types.h>
 int snoopy_datasource_rpname(char * const, size_t, char const * const);
-#define RP_TEXT 24
-static char g_st[2][RP_TEXT];        /* status files of the process (pid 50) and of its parent (pid 40) */
-static int g_foreign_path;
-static void render_status(int i, const char *nm, unsigned nl, const char *ppid2)
+#define RP_LINE 12
+#define RP_NLINES 3
+struct rp_file { char line[RP_NLINES][RP_LINE]; int pos; int open; };
+static struct rp_file g_rp[2];
+static int g_rp_opens, g_rp_ok, g_rp_open_now, g_rp_foreign;
+FILE *fopen(const char *path, const char *mode)
 {
-    /* "Name:\t<name>\nPPid:\t<pp>\n" with every byte at a concrete index */
-    const char tail[10] = { '\n', 'P', 'P', 'i', 'd', ':', '\t', ppid2[0], ppid2[1], '\n' };
-    char *t = g_st[i];
-    t[0] = 'N'; t[1] = 'a'; t[2] = 'm'; t[3] = 'e'; t[4] = ':'; t[5] = '\t';
-    for (unsigned j = 0; j < 3 + 10; j++) t[6 + j] = (j < nl) ? nm[j] : ((j - nl < 10) ? tail[j - nl] : '\0');
-    t[6 + 13] = '\0';
+    int i;
+    (void)mode;
+    g_rp_opens++;
+    V_ASSERT(g_rp_opens <= 6, "C12: rpname walks a two-level process tree with at most three reads");
+    if (strcmp(path, "/proc/50/status") == 0) i = 0;
+    else if (strcmp(path, "/proc/40/status") == 0) i = 1;
+    else { g_rp_foreign = 1; errno = ENOENT; return NULL; }
+    if (v_choice() & 1) { errno = ENOENT; return NULL; }          /* process gone, procfs not mounted, EMFILE ... */
+    V_ASSERT(!g_rp[i].open, "C03/C16: a status file is opened again while the previous stream on it is still open");
+    g_rp[i].open = 1; g_rp[i].pos = 0; g_rp_open_now++; g_rp_ok++;
+    return (FILE *)(void *)&g_rp[i];
 }
-void v_fs_lookup(const char *path, struct v_vfile *out)
+ssize_t getline(char **lineptr, size_t *n, FILE *fp)
 {
-    out->exists = 0;
-    if (strcmp(path, "/proc/50/status") == 0) { out->exists = 1; out->content = g_st[0]; out->len = strlen(g_st[0]); }
-    else if (strcmp(path, "/proc/40/status") == 0) { out->exists = 1; out->content = g_st[1]; out->len = strlen(g_st[1]); }
-    else g_foreign_path = 1;
+    struct rp_file *f = (struct rp_file *)(void *)fp;
+    V_ASSERT(f == &g_rp[0] || f == &g_rp[1], "STDIO MISUSE: getline on something that is not a stream");
+    V_ASSERT(f->open, "STDIO MISUSE: getline on a closed stream");
+    if (f->pos >= RP_NLINES) return -1;
+    if (*lineptr == NULL) { *lineptr = malloc(RP_LINE); *n = RP_LINE; }
+    V_ASSERT(*n >= RP_LINE, "STDIO MISUSE: getline with a buffer size that does not describe the buffer");
+    int len = 0;
+    for (int k = 0; k < RP_LINE; k++) { (*lineptr)[k] = f->line[f->pos][k]; if (f->line[f->pos][k] != '\0' && len == k) len = k + 1; }
+    f->pos++;
+    return len;
+}
+int fclose(FILE *fp)
+{
+    struct rp_file *f = (struct rp_file *)(void *)fp;
+    V_ASSERT(f == &g_rp[0] || f == &g_rp[1], "STDIO MISUSE: fclose on something that is not a stream");
+    V_ASSERT(f->open, "STDIO MISUSE: fclose of a stream that is not open");
+    f->open = 0; g_rp_open_now--;
+    return 0;
+}
+static void rp_set(char *t, const char *s) { int k = 0; for (; k < RP_LINE - 1 && s[k] != '\0'; k++) t[k] = s[k]; for (; k < RP_LINE; k++) t[k] = '\0'; }
+static void render_status(int i, const char *nm, unsigned nl, const char *ppid_line)
+{
+    /* "Name:\t<name>\n" / "State:\tS\n" / "PPid:\t<pp>\n", every byte at a concrete index */
+    char *t = g_rp[i].line[0];
+    t[0] = 'N'; t[1] = 'a'; t[2] = 'm'; t[3] = 'e'; t[4] = ':'; t[5] = '\t';
+    for (unsigned j = 0; j < RP_LINE - 6; j++) t[6 + j] = (j < nl) ? nm[j] : ((j == nl) ? '\n' : '\0');
+    rp_set(g_rp[i].line[1], "State:\tS\n");
+    rp_set(g_rp[i].line[2], ppid_line);
 }
 void harness(void)
 {
     setup();
     v_sys.pid = 50;
-#ifdef RP_DIRECT
-    int direct = RP_DIRECT;                         /* partition: the process itself is / is not a child of pid 1 */
-#else
-    int direct = IN.nenv & 1;
-#endif
-#ifdef RP_NOFAULTS
-    for (int i_ = 0; i_ < V_NCH; i_++) v_ch[i_] = 0;   /* partition: every procfs call succeeds (faults: separate query with fixed names) */
-#endif
-#ifdef RP_FIXEDNAMES
-    IN.e0[0] = 'a'; IN.e0[1] = ' '; IN.e0[2] = 'b'; IN.e1[0] = 'c'; IN.e1[1] = ':'; IN.e1[2] = 'd'; IN.fl[10] = 2; IN.fl[11] = 2;
-#endif
-    for (int k = 0; k < 3; k++) { V_ASSUME(IN.e0[k] != '\n' && IN.e0[k] != '\0'); V_ASSUME(IN.e1[k] != '\n' && IN.e1[k] != '\0'); }
-#ifdef RP_NL0      /* partition: name lengths fixed per query so that every file offset is concrete */
-    unsigned nl0 = RP_NL0, nl1 = RP_NL1;
-#else
-    unsigned nl0 = 1 + (IN.fl[10] % 3), nl1 = 1 + (IN.fl[11] % 3);
-#endif
-    render_status(0, IN.e0, nl0, direct ? " 1" : "40");
-    render_status(1, IN.e1, nl1, (IN.nenv & 2) ? " 0" : " 1");
-    v_fs_reset(); v_no_short_reads = 1; g_foreign_path = 0;
+    int direct = IN.nenv & 1;                                     /* the process itself is / is not a child of pid 1 */
+    for (int k = 0; k < 4; k++) { V_ASSUME(IN.e0[k] != '\n' && IN.e0[k] != '\0'); V_ASSUME(IN.e1[k] != '\n' && IN.e1[k] != '\0'); }
+    unsigned nl0 = 1 + (IN.fl[10] & 3), nl1 = 1 + (IN.fl[11] & 3);   /* names of 1..4 arbitrary bytes */
+    render_status(0, IN.e0, nl0, direct ? ((IN.nenv & 4) ? "PPid:\t0\n" : "PPid:\t1\n") : "PPid:\t40\n");
+    render_status(1, IN.e1, nl1, (IN.nenv & 2) ? "PPid:\t0\n" : "PPid:\t1\n");
     snoopy_datasource_rpname(buf, BUFSZ, "");
     TERMINATED();
-    V_ASSERT(v_open_streams == 0, "C03/C16: every procfs stream is closed on every path");
-    V_ASSERT(!g_foreign_path, "C12: rpname reads only the status files of the process and its ancestors");
+    V_ASSERT(g_rp_open_now == 0, "C03/C16: every procfs stream is closed on every path");
+    V_ASSERT(!g_rp_foreign, "C12: rpname reads only the status files of the process and its ancestors");
     const char *want = direct ? IN.e0 : IN.e1; unsigned wl = direct ? nl0 : nl1;
     int is_want = (strnlen(buf, BUFSZ) == wl);
-    for (unsigned k = 0; k < wl && is_want; k++) if (buf[k] != want[k]) is_want = 0;
+    for (unsigned k = 0; k < 4; k++) if (k < wl && buf[k] != want[k]) is_want = 0;
     int expected_opens = direct ? 2 : 3;
-    if (v_fopen_ok == expected_opens && v_fopen_calls == expected_opens)
+    if (g_rp_ok == expected_opens && g_rp_opens == expected_opens)
         V_ASSERT(is_want, "C12: rpname = name of the ancestor whose parent is pid 1 (or 0), exactly as the kernel reports it");
     else
         V_ASSERT(is_want || same(buf, "(unknown)"), "C03: unreadable process tree => (unknown)");
+    V_WITNESS();
+}
+#elif defined(DS_cgroup)
+/* cgroup:<arg> = the line of /proc/<pid>/cgroup ("<id>:<controller>[,<controller>...]:<path>") selected by <arg>: by hierarchy
+ * id when <arg> is a number, otherwise the first line whose controller list contains <arg>; "(none)" when there is none.
+ * util/file.c's reader is replaced by a stub handing out the text (or failing); util/string.c is the real code. */
+int snoopy_datasource_cgroup(char * const, size_t, char const * const);
+#define CG_LINE 10                  /* d ':' L0 L1 L2 L3 ':' P0 P1 '\n' */
+#define CG_CAP 24
+static int g_cg_foreign, g_cg_reads;
+static char g_cg_text[2 * CG_LINE + 1];
+int snoopy_util_file_getSmallTextFileContent(char const * const filePath, char ** contentPtrAddr)
+{
+    char *c = malloc(CG_CAP);
+    g_cg_reads++;
+    if (strcmp(filePath, "/proc/50/cgroup") != 0) g_cg_foreign = 1;
+    if (v_choice() & 1) { c[0] = 'E'; c[1] = '\0'; *contentPtrAddr = c; return -1; }
+    for (int k = 0; k < 2 * CG_LINE + 1; k++) c[k] = g_cg_text[k];
+    *contentPtrAddr = c;
+    return 2 * CG_LINE;
+}
+static int cg_list_has(const char *L, const char *a, int al)
+{
+    for (int s = 0; s < 4; s++) {
+        if (s > 0 && L[s - 1] != ',') continue;
+        int e = s;
+        for (int k = s; k < 4; k++) if (e == k && L[k] != ',') e = k + 1;
+        if (e - s != al) continue;
+        int eq = 1;
+        for (int k = 0; k < 4; k++) if (k < al && s + k < 4 && L[s + k] != a[k]) eq = 0;
+        if (eq) return 1;
+    }
+    return 0;
+}
+void harness(void)
+{
+    setup();
+    v_sys.pid = 50;
+    const char *Ls[2] = { IN.e0, IN.e1 };
+    char d[2] = { (char)('0' + IN.fl[10] % 10), (char)('0' + IN.fl[11] % 10) };
+    for (int i = 0; i < 2; i++) {
+        for (int k = 0; k < 4; k++) V_ASSUME(Ls[i][k] != ':' && Ls[i][k] != '\n' && Ls[i][k] != '\0');   /* controller list */
+        for (int k = 4; k < 6; k++) V_ASSUME(Ls[i][k] != '\n' && Ls[i][k] != '\0');                     /* path: any other byte */
+        char *t = g_cg_text + i * CG_LINE;
+        t[0] = d[i]; t[1] = ':'; t[2] = Ls[i][0]; t[3] = Ls[i][1]; t[4] = Ls[i][2]; t[5] = Ls[i][3]; t[6] = ':'; t[7] = Ls[i][4]; t[8] = Ls[i][5]; t[9] = '\n';
+    }
+    g_cg_text[2 * CG_LINE] = '\0';
+    IN.arg[4] = '\0';
+    int al = (int)strnlen(IN.arg, 6);
+    V_ASSUME(al >= 1);
+    int digits = 1;
+    for (int k = 0; k < 4; k++) { if (k < al) { V_ASSUME(IN.arg[k] != ':' && IN.arg[k] != ',' && IN.arg[k] != '\n'); if (IN.arg[k] < '0' || IN.arg[k] > '9') digits = 0; } }
+    int rc = snoopy_datasource_cgroup(buf, BUFSZ, IN.arg);
+    TERMINATED();
+    V_ASSERT(g_cg_reads == 1 && !g_cg_foreign, "C12: cgroup reads the cgroup file of THIS process, once");
+    if (v_ch[0] & 1) {
+        V_ASSERT(rc == SNOOPY_DATASOURCE_FAILURE && strncmp(buf, "Unable to read file", 19) == 0, "C03: unreadable cgroup file => failure with a message");
+    } else {
+        int want = -1;
+        for (int i = 1; i >= 0; i--) {
+            int m = digits ? (al == 1 && IN.arg[0] == d[i]) : cg_list_has(Ls[i], IN.arg, al);
+            if (m) want = i;
+        }
+        if (want < 0) V_ASSERT(same(buf, "(none)"), "C12: cgroup = (none) when no line of the process's cgroup file matches");
+        else {
+            int ok = (strnlen(buf, BUFSZ) == CG_LINE - 1);
+            for (int k = 0; k < CG_LINE - 1; k++) if (buf[k] != g_cg_text[want * CG_LINE + k]) ok = 0;
+            V_ASSERT(ok, "C12: cgroup = the FIRST line of the process's cgroup file whose id / controller list matches the argument, whole line");
+        }
+    }
     V_WITNESS();
 }
 #elif defined(DS_timestamp)
